@@ -255,7 +255,10 @@ struct Driver
     const SchemaShape* shape;
     void (*run)(const Req&, Res&);
     bool checked; // built with SBEPP_ENABLE_ASSERTS_WITH_HANDLER
+    bool producer_only = false; // a later version of a corpus schema: only M_ENCODE is bound (the producing peer of C03)
 };
 
 std::vector<Driver>& drivers();
+// the drivers checks draw their schemas from (everything except producer-only ones), in registry order
+const std::vector<Driver>& consumer_drivers();
 } // namespace wire
